@@ -23,6 +23,7 @@ func init() {
 			"(S2, no two live lists share a backing array) in the cone of UpdateNodeLists no two append() calls extend slices that may share the backing array of the same caller-visible buffer " +
 			"(interprocedural may-alias with per-function 'result aliases parameter' summaries): the second append overwrites what the first one added, silently replacing validators in a result list. " +
 			"(S3) a list stored into a shard map is never a two-index window x[a:b] of another list (it would keep that array's capacity: the next append overwrites the validators that follow). " +
+			"The input hashed for a validator in shuffleList is built in that iteration from that validator's PubKey() (no buffer patched across iterations). " +
 			"Not decided (value-level): duplicates inside the inputs, slice-bound arithmetic, which keys are honoured as leaving.",
 		Run: runC12,
 	})
@@ -294,6 +295,60 @@ func runC12(c *core.Ctx) {
 	checkValidatorResultsUsed(c, "C12/validator-results-used", cone)
 	c.Floor("C12/validator-results-used", 10)
 	c.Floor("C12/no-shared-append-base", 2)
+	c12ShuffleKeyPerValidator(c)
+}
+
+// c12ShuffleKeyPerValidator: shuffleList identifies each validator by the hash of its key and the
+// randomness and puts the validators back through a map keyed by that hash: two validators with
+// one hash input collapse into one entry, which then fills two places while the other validator
+// is in no list. The input hashed in an iteration is therefore a value built in that iteration
+// from that iteration's v.PubKey() - not a buffer that lives across iterations and is patched in
+// place (a fixed window keeps stale bytes of a longer key and truncates a longer one).
+func c12ShuffleKeyPerValidator(c *core.Ctx) {
+	fn := anchorF(c, "sharding", "shuffleList")
+	if fn == nil {
+		return
+	}
+	n := 0
+	core.Instrs(fn, func(in ssa.Instruction) {
+		cc := core.CallOf(in)
+		if cc == nil {
+			return
+		}
+		if nm := core.CallDesc(cc).Name; nm != "Compute" {
+			return
+		}
+		l := core.InnermostLoop(fn, in.Block())
+		if l == nil {
+			return
+		}
+		n++
+		v := cc.Args[len(cc.Args)-1]
+		for {
+			if cv, ok := v.(*ssa.Convert); ok {
+				v = cv.X
+				continue
+			}
+			break
+		}
+		vi, isI := v.(ssa.Instruction)
+		inIter := isI && l.Body[vi.Block()]
+		if ph, isPhi := v.(*ssa.Phi); isPhi && ph.Block() == l.Header {
+			inIter = false
+		}
+		fromKey := false
+		if inIter {
+			for x := range core.BackwardReachPure(v) {
+				if call, ok := x.(*ssa.Call); ok && core.CallDesc(&call.Call).Name == "PubKey" && l.Body[call.Block()] {
+					fromKey = true
+				}
+			}
+		}
+		c.Check(inIter && fromKey, "C12/shuffle-key-built-per-validator", fmt.Sprintf("shuffleList/Compute#%d", n), in.Pos(),
+			"the hashed input is built in the iteration from that validator's PubKey()",
+			"the input hashed for a validator is "+core.ExprKey(v)+", a buffer that lives across iterations (built in this iteration: "+fmt.Sprint(inIter)+"): keys of different lengths leave stale or truncated bytes in it, two validators get one hash, and the map keyed by the hash puts one of them in two places and the other in none")
+	})
+	c.Floor("C12/shuffle-key-built-per-validator", 1)
 }
 
 // movesInto: f stores values derived from parameter srcIdx into the map parameter destIdx, directly
